@@ -37,63 +37,135 @@ theorem modelCode_in_class (st : Fsm) (m : Msg) (cause : Cause) (hst : isReading
       | (rename_i f; cases f <;> decide)
       | (rename_i e; cases e <;> decide)
 
-/-- outputs of `except Notify` when `peer.proto` is there and the write goes through. -/
-theorem onNotify_outs (code sub : Nat) (s : State) (k : Conn) (hc : s.conn = some k) (hr : k.rst = false) :
-    (onNotify code sub s).2 =
-      [Out.send k.id (.notification code sub) s.fsm] ++ (if quietFsm s.fsm then [] else [Out.down]) ++
-      [Out.fsm s.fsm .idle, Out.close k.id] ++ (if canReconnect s then [] else [Out.fsm .idle .idle]) := by
-  obtain ⟨cfg, fsm, pc, conn, nextId, restart, teardown, attempts, rib, rq, rp, ep, ka, up⟩ := s
-  simp only at hc
-  subst hc
-  simp only [onNotify, andThen_snd, andThen_fst, sendOn, hr, resetP, closeP, apiDown, fsmTo, closeConn, stopIfExhausted,
-    stopP, finish, canReconnect, quietFsm]
-  rcases Bool.eq_false_or_eq_true (cfg.maxAttempts == 0 || decide (attempts < cfg.maxAttempts)) with hcr | hcr <;>
-    cases restart <;> cases fsm <;> simp [hcr, markSent]
-
 /-- the writes on connection `c` in a list of outputs. -/
 def sendsOn (c : Nat) (os : List Out) : List Kind :=
   os.filterMap fun o => match o with
     | .send c' k _ => if c' = c then some k else none
     | _ => none
 
+theorem sendsOn_append (c : Nat) (a b : List Out) : sendsOn c (a ++ b) = sendsOn c a ++ sendsOn c b := by
+  simp [sendsOn, List.filterMap_append]
+
+theorem sendsOn_nil (c : Nat) : sendsOn c [] = [] := rfl
+theorem sendsOn_send_self (c : Nat) (k : Kind) (st : Fsm) (os : List Out) :
+    sendsOn c (Out.send c k st :: os) = k :: sendsOn c os := by simp [sendsOn]
+theorem sendsOn_fsm (c : Nat) (a b : Fsm) (os : List Out) : sendsOn c (Out.fsm a b :: os) = sendsOn c os := rfl
+theorem sendsOn_close (c d : Nat) (os : List Out) : sendsOn c (Out.close d :: os) = sendsOn c os := rfl
+theorem sendsOn_got (c d : Nat) (os : List Out) : sendsOn c (Out.gotNotification d :: os) = sendsOn c os := rfl
+theorem sendsOn_down (c : Nat) (os : List Out) : sendsOn c (Out.down :: os) = sendsOn c os := rfl
+
+/-- what `_close` tells the API process. -/
+def downOut (s : State) : List Out := if s.cfg.changes && !s.dead then [Out.down] else []
+
+theorem sendsOn_downOut (c : Nat) (s : State) : sendsOn c (downOut s) = [] := by
+  unfold downOut; split <;> rfl
+
+/-- the ghost marker `onProcessError` leaves when what could not be forwarded was a NOTIFICATION. -/
+def gotNote (m : Msg) (s : State) : List Out :=
+  match m, s.conn with
+  | .notification, some c => [Out.gotNotification c.id]
+  | _, _ => []
+
+theorem sendsOn_gotNote (c : Nat) (m : Msg) (s : State) : sendsOn c (gotNote m s) = [] := by
+  unfold gotNote; split <;> rfl
+
+theorem closeP_snd (s : State) :
+    (closeP s).2 = (if quietFsm s.fsm then [] else downOut s) ++ [Out.fsm s.fsm .idle] ++
+      (match s.conn with | some c => [Out.close c.id] | none => []) := by
+  simp only [closeP, apiDown, fsmTo, closeConn, andThen_snd, andThen_fst, quietFsm, downOut]
+  cases hf : s.fsm <;> cases hc : s.conn <;> simp [hf, hc]
+
+theorem resetP_snd (s : State) : (resetP s).2 = (closeP s).2 := by
+  simp only [resetP, andThen_snd]
+  split <;> simp
+
+theorem stopIfExhausted_snd (s : State) :
+    (stopIfExhausted s).2 = if canReconnect s then [] else [Out.fsm s.fsm .idle] := by
+  unfold stopIfExhausted stopP fsmTo
+  split <;> simp
+
+theorem stopIfExhausted_conn (s : State) : (stopIfExhausted s).1.conn = s.conn := by
+  unfold stopIfExhausted stopP fsmTo
+  split <;> rfl
+
+/-- outputs of `except Notify` when `peer.proto` is there and the write goes through. -/
+theorem onNotify_outs (code sub : Nat) (s : State) (k : Conn) (hc : s.conn = some k) (hr : k.rst = false) :
+    (onNotify code sub s).2 =
+      [Out.send k.id (.notification code sub) s.fsm] ++ (if quietFsm s.fsm then [] else downOut s) ++
+      [Out.fsm s.fsm .idle, Out.close k.id] ++ (if canReconnect s then [] else [Out.fsm .idle .idle]) := by
+  have hs : (sendOn (.notification code sub) s).1 =
+      ({ s with conn := some (markSent (.notification code sub) k) }, [Out.send k.id (.notification code sub) s.fsm]) := by
+    simp [sendOn, hc, hr]
+  simp only [onNotify, andThen_snd, andThen_fst, hs, resetP_snd, closeP_snd, stopIfExhausted_snd, finish, resetP_fst,
+    List.append_nil]
+  have hcr : canReconnect
+      { s with fsm := Fsm.idle, conn := none,
+               isUp := s.isUp && quietFsm s.fsm,
+               teardown := if s.restart then none else s.teardown,
+               refreshQ := if s.restart then 0 else s.refreshQ } = canReconnect s := rfl
+  simp [markSent, canReconnect, downOut]
+
 theorem onNotify_sends (code sub : Nat) (s : State) (k : Conn) (hc : s.conn = some k) (hr : k.rst = false) :
     sendsOn k.id (onNotify code sub s).2 = [.notification code sub] ∧ Out.close k.id ∈ (onNotify code sub s).2 ∧
     (onNotify code sub s).1.conn = none := by
   rw [onNotify_outs code sub s k hc hr, onNotify_fst]
   refine ⟨?_, by simp, rfl⟩
-  cases quietFsm s.fsm <;> cases canReconnect s <;> simp [sendsOn]
+  cases quietFsm s.fsm <;> cases canReconnect s <;>
+    simp [sendsOn_append, sendsOn_send_self, sendsOn_fsm, sendsOn_close, sendsOn_downOut, sendsOn_nil]
+
+/-- handing `m` to the API process raises `ProcessError` (the process is gone and `m` is forwarded). -/
+def apiFails (m : Msg) (s : State) : Bool := s.cfg.forward && s.dead && forwardRaises m
 
 /-- the structural half of `code_is_class`: a message with a cause is answered by `onNotify`
-    with `modelCode`. -/
+    with `modelCode` — unless handing it to the API process already failed. -/
 theorem deliver_eq_onNotify (m : Msg) (s : State) (hinv : Inv s) (c : Nat) (k : Conn)
     (haw : awaited s = some c) (hc : s.conn = some k) (hk : k.id = c) (cause : Cause)
-    (hcause : causeOf s.fsm m = some cause) :
+    (hcause : causeOf s.fsm m = some cause) (hapi : apiFails m s = false) :
     deliver m s = onNotify (modelCode s.fsm m).1 (modelCode s.fsm m).2 s := by
+  have hd : deliver m s = deliverAlive m s := by
+    unfold deliver; unfold apiFails at hapi; rw [hapi]; simp
+  rw [hd]
   cases hp : s.pc with
   | awaitOpen c' =>
     have hcc : c' = c := by simpa [awaited, hp] using haw
     subst hcc
     have hf := (hinv.awaitOpen _ k hp hc hk).1
     rw [hf] at hcause ⊢
-    unfold deliver; rw [hp]
+    unfold deliverAlive; rw [hp]
     cases m <;> simp [causeOf] at hcause <;> simp [modelCode, fsmSub]
   | awaitKa c' =>
     have hcc : c' = c := by simpa [awaited, hp] using haw
     subst hcc
     have hf := (hinv.awaitKa _ k hp hc hk).1
     rw [hf] at hcause ⊢
-    unfold deliver; rw [hp]
+    unfold deliverAlive; rw [hp]
     cases m <;> simp [causeOf] at hcause <;> simp [modelCode, fsmSub]
   | mainLoop c' =>
     have hcc : c' = c := by simpa [awaited, hp] using haw
     subst hcc
     have hf := (hinv.main _ k hp hc hk).1
     rw [hf] at hcause ⊢
-    unfold deliver; rw [hp]
+    unfold deliverAlive; rw [hp]
     cases m <;> simp [causeOf] at hcause <;> simp [mainIter, modelCode, fsmSub]
   | backoff => simp [awaited, hp] at haw
   | done => simp [awaited, hp] at haw
   | passiveWait => simp [awaited, hp] at haw
   | connecting => simp [awaited, hp] at haw
+
+/-- ... and when it failed: `except ProcessError` of `_run` — nothing is written, the connection is closed. -/
+theorem deliver_process_error (m : Msg) (s : State) (k : Conn) (hc : s.conn = some k) (hapi : apiFails m s = true) :
+    sendsOn k.id (deliver m s).2 = [] ∧ Out.close k.id ∈ (deliver m s).2 ∧ (deliver m s).1.conn = none := by
+  have hd : deliver m s = onProcessError m s := by
+    unfold deliver; unfold apiFails at hapi; rw [hapi]; simp
+  rw [hd]
+  have ho : (onProcessError m s).2 = gotNote m s ++ (closeP s).2 := by
+    simp only [onProcessError, onOther, finish, resetP_snd, gotNote, andThen_snd, List.append_nil]
+    cases m <;> cases s.conn <;> rfl
+  refine ⟨?_, ?_, ?_⟩
+  · rw [ho, closeP_snd, hc]
+    cases quietFsm s.fsm <;>
+      simp [sendsOn_append, sendsOn_fsm, sendsOn_close, sendsOn_downOut, sendsOn_nil, sendsOn_gotNote]
+  · rw [ho, closeP_snd, hc]; simp
+  · unfold onProcessError; rw [andThen_fst, onOther_fst]
 
 end Exa.Session
